@@ -304,6 +304,13 @@ class _Continue(Exception):
     pass
 
 
+GEN_CAP = 64
+
+
+class _GenCap(Exception):
+    pass
+
+
 class Raised(Exception):
     def __init__(self, exc: ExcVal, loc: str = ''):
         self.exc = exc
@@ -579,6 +586,8 @@ class Interp:
                 if not self.yield_sinks:
                     raise Unsupported(f'yield outside generator call {self.call_stack[-1:]}')
                 self.yield_sinks[-1].append(self.eval(st.value.value, env) if st.value.value is not None else None)
+                if len(self.yield_sinks[-1]) > GEN_CAP:
+                    raise _GenCap()  # an endless (or very long) generator: evaluated up to the cap, see call_generator
                 return
             if isinstance(st.value, ast.YieldFrom):
                 if not self.yield_sinks:
@@ -1456,7 +1465,10 @@ class Interp:
             return self.call(callee.func, callee.args + list(args), dict(callee.kwargs, **kwargs), node, env)
         if isinstance(callee, ModRef) and callee.name == 'functools.partial' and args:
             return PartialVal(args[0], args[1:], kwargs)
-        r = self.hooks.call(self, callee, args, kwargs, node)
+        # a module-level function that did not exist when the checks were written (a helper a refactoring extracted) cannot have been meant
+        # by any model of a hook: it is interpreted, whatever the domain of the check
+        fresh_helper = isinstance(callee, FuncRef) and callee.fi is not None and callee.fi.cls is None and self.repo.is_fresh(callee.fi.qualname)
+        r = NotImplemented if fresh_helper else self.hooks.call(self, callee, args, kwargs, node)
         if r is not NotImplemented:
             return r
         if isinstance(callee, FuncRef):
@@ -1584,15 +1596,25 @@ class Interp:
         self.depth += 1
         self.call_stack.append(fr.fi.qualname)
         self.yield_sinks.append(out)
+        capped = False
         try:
             try:
                 self.exec_block(fnode.body, env)
             except _Return:
                 pass
+            except _GenCap:
+                capped = True
         finally:
             self.yield_sinks.pop()
             self.depth -= 1
             self.call_stack.pop()
+        if capped:
+            # an endless schedule (`while True: yield ...`): the first GEN_CAP values are known; a consumer that stops earlier (zip with a
+            # bounded range, islice, a loop with break) is exact, one that asks for more is outside what this evaluation can say
+            def beyond(items=out, name=fr.fi.qualname):
+                yield from items
+                raise Unsupported(f'generator {name} consumed beyond {GEN_CAP} values')
+            return LazyGen(beyond(), 'capped ' + fr.fi.qualname)
         return out
 
     def bind_params(self, a: ast.arguments, args: List[Any], kwargs: Dict[str, Any], env: Env, fr: FuncRef) -> None:
@@ -1754,7 +1776,7 @@ class Interp:
         return LazyGen(iter([(start + i, x) for i, x in enumerate(items)]), 'enumerate')
 
     def b_zip(self, args, kwargs, node):
-        its = [list(self.iterate(a, node)) for a in args]
+        its = [iter(self.iterate(a, node)) for a in args]  # in lockstep, as in Python: nothing is pulled once the first one is exhausted
         return [tuple(t) for t in zip(*its)]
 
     def b_reversed(self, args, kwargs, node):
